@@ -158,14 +158,6 @@ A local `set_parent` is one `add_child` (no guard: an entity re-parented to the 
 of that parent's list). A received `EntityParented` goes through the handler, which does `set_parent; add_child` only
 when the link differs. A peer's history is a mix of the two. -/
 
-/-- the `EntityParented` handler with its guard -/
-def handle (h : H) (p c : Nat) : H := if h.par c = some p then h else applyParented h p c
-
-/-- one operation of a peer: `(true, p, c)` a handled message, `(false, p, c)` a local `set_parent` -/
-def stepOp (h : H) (o : Bool × Nat × Nat) : H := if o.1 then handle h o.2.1 o.2.2 else addChild h o.2.1 o.2.2
-
-def runOps (h : H) (ops : List (Bool × Nat × Nat)) : H := ops.foldl stepOp h
-
 theorem handle_wf (h : H) (p c : Nat) (hw : WF h) : WF (handle h p c) := by
   unfold handle; split
   · exact hw
